@@ -235,7 +235,8 @@ def fi(v):
 
 
 def fmt_of(S):
-    return {"Q": fq, "F": ff, "I": fi}[S]
+    from vlib import ff32
+    return {"Q": fq, "F": ff, "I": fi, "G": ff32, "J": fi}[S]
 
 
 def axis_i(rng, n, kind=None):
